@@ -17,6 +17,7 @@ def m_panic(ctx, cty, args):
         if isinstance(a, SStr) and a.is_concrete():
             msg = a.concrete()
         elif type(a) is Agg and a.ty == "fmt::Arguments":
+            from .models_str import render_arguments
             s = render_arguments(ctx, a)
             msg = s.concrete() if s.is_concrete() else repr(s)
     raise PanicPath(msg, "panic")
